@@ -280,7 +280,7 @@ class Grid1D(MeshStructure):
     def _mesh_1d_param(self, *args, coordlabels={'x':'_x'}):
         if len(args) == 1:
             # Use face locations
-            facelocationX = args[0]
+            facelocationX = np.asarray(args[0], dtype=float)
             Nx = facelocationX.size-1
             cell_size_x = np.hstack([facelocationX[1]-facelocationX[0],
                                      facelocationX[1:]-facelocationX[0:-1],
@@ -567,8 +567,8 @@ class Grid2D(MeshStructure):
                                                  'y':'_y'}):
         if len(args) == 2:
             # Use face locations
-            facelocationX = args[0]
-            facelocationY = args[1]
+            facelocationX = np.asarray(args[0], dtype=float)
+            facelocationY = np.asarray(args[1], dtype=float)
             Nx = facelocationX.size-1
             Ny = facelocationY.size-1
             cell_size = CellSize(self._facelocation_to_cellsize(facelocationX),
@@ -922,9 +922,9 @@ class Grid3D(MeshStructure):
                                                  'z':'_z'}):
         if len(args) == 3:
             # Use face locations
-            facelocationX = args[0]
-            facelocationY = args[1]
-            facelocationZ = args[2]
+            facelocationX = np.asarray(args[0], dtype=float)
+            facelocationY = np.asarray(args[1], dtype=float)
+            facelocationZ = np.asarray(args[2], dtype=float)
             Nx = facelocationX.size-1
             Ny = facelocationY.size-1
             Nz = facelocationZ.size-1
